@@ -98,7 +98,7 @@ func bgAnalyseFn(c *Ctx, fn *ssa.Function, name string) *bgInfo {
 			}
 		case *ssa.Call:
 			if cal := x.Call.StaticCallee(); cal != nil && fname(cal) == "Go" && cal.Pkg != nil && strings.HasSuffix(cal.Pkg.Pkg.Path(), "errgroup") && len(x.Call.Args) == 2 {
-				if f := resolveFuncValue(x.Call.Args[1], 0); f != nil && f.Parent() == fn {
+				if f := resolveFuncValue(x.Call.Args[1], 0); f != nil && (f.Parent() == fn || viaConstructor(x.Call.Args[1], f)) {
 					bi.spawned = append(bi.spawned, f)
 					bi.spawnHow[f] = "errgroup"
 					bi.spawnAt[f] = x
@@ -802,4 +802,15 @@ func returnedWrapperType(fn *ssa.Function) types.Type {
 		}
 	})
 	return out
+}
+
+// viaConstructor: v is a call of an in-package constructor and lit the function literal that constructor returns
+// (eg.Go(newContextWorker(ctx, &x, n, f))).
+func viaConstructor(v ssa.Value, lit *ssa.Function) bool {
+	call, ok := v.(*ssa.Call)
+	if !ok || lit == nil || lit.Parent() == nil {
+		return false
+	}
+	cal := call.Call.StaticCallee()
+	return cal != nil && origin(cal) == origin(lit.Parent())
 }
